@@ -180,6 +180,10 @@ GRID_HISTORIES = {
                             [("ExitFiller", [0]), ("SessionDone", []), ("BeginFiller", [["s"]]),
                              ("Write", [0, "train", "None", "good"]), ("Write", [0, "test", "None", "good"]),
                              ("ExitFiller", [0]), ("SessionDone", [])],
+    "alternating_metadata": [("Create", []), ("BeginFiller", [[]])] +
+                            [("Write", [0, "train", ("A", "A", "B", "B", "A", "A", "B", "A", "A")[i], "good"])
+                             for i in range(9)] +
+                            [("Write", [0, "test", "None", "good"]), ("ExitFiller", [0]), ("SessionDone", [])],
     "multi_writer": [("Create", []), ("MultiBegin", [3])] +
                     [("Write", [1 + i % 3, "train" if i % 4 else "test", "None", "good"]) for i in range(10)] +
                     [("ExitFiller", [1]), ("ExitFiller", [2]), ("ExitFiller", [3]), ("MultiEnd", []),
@@ -219,7 +223,7 @@ def read_grid(task: dict) -> dict:
         from sedpack.io import Dataset
         from .. import dsreal, readers
         fmt, comp, eps = task["fmt"], task["compression"], task.get("eps", 2)
-        rp = dsreal.Replayer(tmp / "d", fmt, comp, eps=eps, hashes=("md5",))
+        rp = dsreal.Replayer(tmp / "d", fmt, comp, eps=eps, hashes=("md5",), md_table=dsreal.MD_FLAT)
         try:
             for nm, args in task["labels"]:
                 rp.step(nm, tuple(tuple(a) if isinstance(a, list) else a for a in args))
@@ -245,6 +249,10 @@ def read_grid(task: dict) -> dict:
                 if cfg["shuffle"] == "n":
                     shuffle = n
                 kw = {"repeat": cfg["repeat"], "shuffle": shuffle, "file_parallelism": fp}
+                if cfg.get("limit"):
+                    if iface in ("async", "rust"):
+                        continue
+                    kw["custom_metadata_type_limit"] = cfg["limit"]
                 take = None
                 if cfg["repeat"]:
                     take = 3 * n + 1 if mode != "epochs" and iface != "rust" else 3 * n
@@ -272,6 +280,10 @@ def read_grid(task: dict) -> dict:
                     continue
                 if mode == "bag":
                     o = {"want": ids, "got": got, "mode": "bag"}
+                elif mode == "seq" and cfg.get("limit"):
+                    if ref is None:
+                        continue
+                    o = {"want": ref, "got": got, "mode": "subseq"}
                 elif mode == "seq":
                     if ref is None:
                         ref = got
@@ -301,42 +313,92 @@ def read_grid(task: dict) -> dict:
                 if not readers.supports(iface, fmt, comp):
                     continue
 
-                def lock():
-                    res = []
+                partial = {"passes": [], "error": None}
+
+                def lock(partial=partial, iface=iface):
                     big = readers.iterate(handles["reopened"], iface, large, repeat=False, shuffle=0,
                                           file_parallelism=2)
-                    got_big, big_done = [], False
-                    for _pass in range(3):
-                        it = readers.iterate(handles["reopened"], iface, small, repeat=False, shuffle=0,
-                                             file_parallelism=2)
-                        got = []
-                        for ex in it:
-                            got.append(readers.ex_id(ex))
-                            if not big_done:
-                                try:
-                                    got_big.append(readers.ex_id(next(big)))
-                                except StopIteration:
-                                    big_done = True
-                        res.append((small, got))
-                    if not big_done:
-                        got_big += [readers.ex_id(e) for e in big]
-                    res.append((large, got_big))
-                    return res
+                    got_big = []
+                    partial["passes"].append((large, got_big, False))
+                    big_done = False
+                    try:
+                        for _pass in range(3):
+                            it = readers.iterate(handles["reopened"], iface, small, repeat=False, shuffle=0,
+                                                 file_parallelism=2)
+                            got = []
+                            partial["passes"].append((small, got, False))
+                            for ex in it:
+                                got.append(readers.ex_id(ex))
+                                if not big_done:
+                                    try:
+                                        got_big.append(readers.ex_id(next(big)))
+                                    except StopIteration:
+                                        big_done = True
+                            partial["passes"][-1] = (small, got, True)
+                        if not big_done:
+                            got_big += [readers.ex_id(e) for e in big]
+                        partial["passes"][0] = (large, got_big, True)
+                    except BaseException as exc:  # pylint: disable=broad-except
+                        partial["error"] = f"{type(exc).__name__}: {str(exc)[:160]}"
 
-                status, val = _timed(lock)
+                status, _val = _timed(lock)
                 out["reads"] += 1
                 desc = f"{fmt}/{comp} {task['history']} {iface}: passes over '{small}' and '{large}' consumed in lock-step"
                 if status == "hang":
                     out["problems"].append(("hang", desc + ": no result within the watchdog", {"iface": iface}))
                     return out
-                if status == "raise":
-                    # a loud failure of overlapping passes is outside C02 (which speaks about what is yielded); it is
-                    # reported in the evidence, not as a violation
-                    out.setdefault("notes", []).append(desc + f": raised {type(val).__name__}: {str(val)[:160]}")
+                if partial["error"]:
+                    # a loud failure of overlapping passes is outside C02 (which speaks about what is yielded); what
+                    # WAS yielded until then is still judged (nothing foreign, nothing twice)
+                    out.setdefault("notes", []).append(desc + f": raised {partial['error']}")
+                for split, got, complete in partial["passes"]:
+                    out["obs"].append({"want": committed[split], "got": list(got),
+                                       "mode": "bag" if complete else "partial", "sessions": [],
+                                       "what": desc + f" (pass over {split}{'' if complete else ', stopped by the exception'})"})
+        # two repeating streams alive at once, consumed alternately (training and validation streams)
+        if mode == "repeat" and task.get("lockstep") and len(committed) >= 2:
+            order = sorted(committed, key=lambda s_: len(committed[s_]))
+            small, large = order[0], order[-1]
+            for iface in task["lockstep"]:
+                if not readers.supports(iface, fmt, comp):
                     continue
-                for split, got in val:
-                    out["obs"].append({"want": committed[split], "got": got, "mode": "bag", "sessions": [],
-                                       "what": desc + f" (pass over {split})"})
+                for shuffle in (0, 2):
+                    streams = {small: [], large: []}
+                    err = {}
+
+                    def both(streams=streams, iface=iface, shuffle=shuffle, err=err):
+                        try:
+                            a = readers.iterate(handles["reopened"], iface, small, repeat=True, shuffle=shuffle,
+                                                file_parallelism=2)
+                            b = readers.iterate(handles["reopened"], iface, large, repeat=True, shuffle=shuffle,
+                                                file_parallelism=2)
+                            for _k in range(3 * len(committed[large]) + 1):
+                                streams[small].append(readers.ex_id(next(a)))
+                                streams[large].append(readers.ex_id(next(b)))
+                            for it in (a, b):
+                                close = getattr(it, "close", None)
+                                if close:
+                                    close()
+                        except BaseException as exc:  # pylint: disable=broad-except
+                            err["e"] = f"{type(exc).__name__}: {str(exc)[:160]}"
+
+                    status, _v = _timed(both)
+                    out["reads"] += 1
+                    desc = (f"{fmt}/{comp} {task['history']} {iface} shuffle={shuffle}: repeating streams over "
+                            f"'{small}' and '{large}' consumed alternately")
+                    if status == "hang":
+                        out["problems"].append(("hang", desc + ": no result within the watchdog", {"iface": iface}))
+                        return out
+                    if err:
+                        out.setdefault("notes", []).append(desc + f": raised {err['e']}")
+                    for split in (small, large):
+                        ref = readers.read_ids(handles["reopened"], "numpy", split, repeat=False, shuffle=0)
+                        m = "member" if (err or shuffle) and iface != "rust" else ("periodic" if shuffle == 0 and not err
+                                                                                     else "member")
+                        if iface == "rust" and not err:
+                            m = "epochs"
+                        out["obs"].append({"want": ref, "got": list(streams[split]), "mode": m, "sessions": [],
+                                           "what": desc + f" (stream over {split})"})
     except Exception:  # pylint: disable=broad-except
         out["error"] = traceback.format_exc()
     finally:
